@@ -74,8 +74,8 @@ def run_kvdrive(script_text, wd, name, variant="rel", env=None, timeout=120, tas
     tp, rc, err = _run_kvdrive_once(script_text, wd, name, variant, env, timeout, taskset, stdin_bytes, leaks)
     if rc == 124 and hang_is_verdict is not True:
         import fcntl
-        os.makedirs(os.path.join(ROOT, "work"), exist_ok=True)
-        with open(os.path.join(ROOT, "work", ".alone.lock"), "w") as lk:
+        os.makedirs(WORK, exist_ok=True)
+        with open(os.path.join(WORK, ".alone.lock"), "w") as lk:
             fcntl.flock(lk, fcntl.LOCK_EX)
             tp, rc, err = _run_kvdrive_once(script_text, wd, name, variant, env, 3 * timeout, taskset, stdin_bytes, leaks)
         if rc == 124 and hang_is_verdict == "retry":
@@ -120,8 +120,8 @@ def run_cli(args, variant="rel", stdin_bytes=None, timeout=60, env=None, cwd=Non
     r = _run_cli_once(args, variant, stdin_bytes, timeout, env, cwd, leaks)
     if r[0] == 124 and hang_is_verdict == "retry":
         import fcntl
-        os.makedirs(os.path.join(ROOT, "work"), exist_ok=True)
-        with open(os.path.join(ROOT, "work", ".alone.lock"), "w") as lk:
+        os.makedirs(WORK, exist_ok=True)
+        with open(os.path.join(WORK, ".alone.lock"), "w") as lk:
             fcntl.flock(lk, fcntl.LOCK_EX)
             r = _run_cli_once(args, variant, stdin_bytes, 3 * timeout, env, cwd, leaks)
     return r
@@ -306,6 +306,19 @@ def tlc_mc(module, cfg, wd, workers=NCPU, timeout=1800, heap="8g", expect_violat
         raise Broken("broken twin %s/%s was NOT rejected: the invariant is vacuous" % (module, cfg))
     return r
 
+
+
+def mc_aligner(V, wd, tag, tier):
+    """end-to-end model (Aligner.tla: canonical order, distances, UPGMA, progressive merges, rows): the property's invariant
+    exhaustively over small inputs; the twin (gap vectors of the wrong side) must be rejected"""
+    for t in (["q"] if tier == "quick" else ["q", "t", "t2"]):
+        cfg = "MC_Aligner_%s_%s.cfg" % (tag, t)
+        r = run_tlc("MC_Aligner", cfg, wd, workers=8, timeout=3400, heap="8g", name=cfg)
+        V.add_tlc(r)
+        if not r.ok:
+            raise Broken("MC_Aligner %s: the composed model violates the property: %s" % (cfg, r.out[-500:]))
+    if run_tlc("MC_Aligner", "MC_Aligner_twin.cfg", wd, workers=4, timeout=900, heap="4g", name="aligner_twin").ok:
+        raise Broken("MC_Aligner twin not rejected")
 
 # --------------------------------------------------------------------------
 # known findings, verdict lines, evidence
